@@ -636,15 +636,22 @@ func (o *OracleC12) After(x *Exec, op *Op, res *Res) {
 		o.hist = map[string]*big.Rat{}
 	}
 	pre := x.Pre()
-	for _, d := range s.Dels {
-		od, ok := pre.FindDel(d.D, d.V, d.Denom)
-		if !ok || d.V < 0 {
+	for _, od := range pre.Dels {
+		if od.V < 0 {
 			continue
 		}
-		for _, h := range d.History {
-			if h.Alliance != d.Denom {
+		d, ok := s.FindDel(od.D, od.V, od.Denom)
+		newHist := d.History
+		if !ok {
+			// the position was removed in this step (full exit): its claim was settled up to the
+			// validator's current indices
+			newHist = s.Vals[od.V].History
+		}
+		for _, h := range newHist {
+			if h.Alliance != od.Denom {
 				continue
 			}
+			d := od
 			old := new(big.Rat)
 			for _, oh := range od.History {
 				if oh.Denom == h.Denom && oh.Alliance == h.Alliance {
